@@ -227,7 +227,7 @@ theorem no_empty_placeholder_partial (g : Grammar) (o : Opts) (fuel root : Nat) 
 
 /-- the same in terms of `to_railroad`: whenever it returns, it returns the resolution of a heap
     without placeholders -/
-theorem no_empty_placeholder_partial' (g : Grammar) (o : Opts) (fuel root : Nat) (ds : List Named)
+theorem no_empty_placeholder_output_partial (g : Grammar) (o : Opts) (fuel root : Nat) (ds : List Named)
     (hd : drawsAll g o = true) (hroot : root < g.length) (h : toRailroad g o fuel root = some ds) :
     ∃ s, convertRoot g o fuel root = some s ∧ ds = sortByIndex ((selected s).map (entryTree s)) ∧
       ∀ nd ∈ s.heap, nd.kw.filled = true := by
